@@ -22,6 +22,10 @@
 //	                 has no stanza for, and other keys of a type it has
 //	ssh-same-type    SSH identities against files for another key of the same
 //	                 type (fresh ssh-ed25519 pairs, fixed RSA keys)
+//	degenerate       reference-built files nobody is a recipient of (zero
+//	                 stanzas, unknown/grease stanzas, random or malformed
+//	                 stanzas of the identities' own types), MAC and payload
+//	                 keyed with the empty key and other values anyone can choose
 //	history          in one process, on the same bytes: legitimate decryptions
 //	                 (real identities) interleaved with disjoint lists — right,
 //	                 wrong, right (second object), wrong, alternating, with a
@@ -50,7 +54,8 @@ func main() {
 		"non-trivial = the public halves of the identities (computed from key material) are disjoint from the recipients handed to Encrypt, " +
 		"age.Decrypt was called and its return values were judged (the reference's verdict on the same bytes is recorded as a diagnosis); distinct by (stage, how the file was made, armor, identity list)"
 	r.Assumptions = []string{
-		"files are those age.Encrypt writes (well-formed headers); hostile headers belong to C03/C10/C14",
+		"files are those age.Encrypt writes, plus (stage degenerate) reference-built files with no stanza a listed identity can open; other hostile headers belong to C03/C10/C14",
+		"for files holding a malformed stanza of an identity's own type only 'nil reader, non-nil error' is required (a hard error is legitimate there)",
 		"scrypt work factors 1-10 (cost only)",
 		"near-miss public keys are explored by role swap: the identity is fixed and the file is addressed to its public key with one bit flipped",
 		"a wrong key passing the 128-bit AEAD tag by chance (2^-128 per case) is not considered",
@@ -77,6 +82,7 @@ func main() {
 	jobs = append(jobs, m.stagePassphrase()...)
 	jobs = append(jobs, m.stageTypeMatrix()...)
 	jobs = append(jobs, m.stageSSHSameType()...)
+	jobs = append(jobs, m.stageDegenerate()...)
 	r.Set("jobs", len(jobs))
 	mon.Par(len(jobs), func(i int) { jobs[i]() })
 
@@ -85,6 +91,14 @@ func main() {
 		"passphrase_variants", "typed_error_checked", "no_reader_checked", "files_validated_by_reference", "history_successful_decrypts", "history_subjects"} {
 		if r.Counter(c) == 0 {
 			r.Inconclusive("counter %s is zero: that part of the workload did not run", c)
+		}
+	}
+	// vacuity guard of the degenerate stage: the zero-stanza file keyed with the
+	// empty key and carrying a valid payload was tried by every identity kind
+	for _, k := range "XSERer" {
+		c := fmt.Sprintf("degenerate_zero_stanza_empty_key_valid_payload_tried_by_%c", k)
+		if r.Counter(c) == 0 {
+			r.Inconclusive("counter %s is zero: the forged recipient-less file was not tried with that identity kind", c)
 		}
 	}
 	if n := r.Counter("premise_failures_unexplained"); n > 0 {
